@@ -268,7 +268,7 @@ def enum_atheris(tier, seed):
         for i, d in enumerate(docs):
             with open(os.path.join(corpus, f"seed{i:02d}"), "w", encoding="utf-8", newline="") as fh:
                 fh.write(d)
-        runs = 60000 if tier == "thorough" else 2000
+        runs = 60000 if tier == "thorough" else 1200
         environ = dict(os.environ)
         environ["PYTHONPATH"] = env.VERIF_DIR + os.pathsep + environ.get("PYTHONPATH", "")
         subprocess.run([sys.executable, "-m", "vf.fuzz_uvl", corpus, art, str(runs), str(int(seed))], env=environ,
